@@ -831,6 +831,9 @@ fn main() {
                     if real_value == "ok t(0;)" {
                         ev.hit("fragment1.value-nil");
                     }
+                } else if meaning.trim() == "stuck" && real_value == "step-budget-exhausted" {
+                    // neither side terminates within its budget (the model's fuel, the VM's steps)
+                    ev.hit("fragment1.both-out-of-budget");
                 } else if meaning.trim() == "stuck" && real_value.starts_with("error") {
                     // a tuple pattern on the nil a failed match left in a variable: outside the typing
                     // assumption of the meaning function, a run-time error in the VM
